@@ -1,6 +1,100 @@
-import PLV.Model.Level
+/-
+  C06 — Matching always terminates and exhausts the displayed liquidity.
+  Property theorems only.
+-/
+import PLV.Judge
+import PLV.Lemmas.MatchInv
+
 namespace PLV.C06
 open PLV
-/-- placeholder obligation, replaced below by the real C06 theorems -/
-theorem C06_total (l : Level) (q : Nat) (t : Id) (g : Nat) : ∃ r, l.matchOrder q t g = r := ⟨_, rfl⟩
+
+/-! ### (1) every match request returns
+
+`matchLoop` — the model of the loop of `match_order` — is a *total* Lean function: Lean accepted it
+only together with a proof that the measure `(remaining + Σ hidden in the map, number of tickets)`
+decreases lexicographically at each of its three recursive calls. That holds for **every** state:
+orders with nothing displayed, replenish amount 0, stale tickets, states no history reaches.
+The three facts that proof rests on are restated here as theorems. -/
+
+/-- a visited order that stays in the queue (is not set aside) lowers `remaining + hidden` -/
+theorem C06_requeue_progress (o u : Order) (q : Nat) (hq : q ≠ 0)
+    (hu : (matchAgainst o q).updated = some u)
+    (hp : ¬ ((matchAgainst o q).consumed = 0 ∧ (matchAgainst o q).hiddenRed = 0)) :
+    (matchAgainst o q).remaining + u.hid < q + o.hid := visit_progress o q u hq hu hp
+
+/-- every `pop` shortens the ticket queue and never raises the hidden total of the map -/
+theorem C06_pop_progress {m : OMap} {ts : List Id} {o m' ts'} (h : popLive m ts = some (o, m', ts')) :
+    ts'.length < ts.length ∧ sumHid m' + o.hid ≤ sumHid m := ⟨popLive_len h, popLive_sumHid h⟩
+
+/-- a visit never increases the remaining quantity -/
+theorem C06_remaining_le (o : Order) (q : Nat) : (matchAgainst o q).remaining ≤ q :=
+  matchAgainst_remaining_le o q
+
+/-- the call returns a result, for every level state whatsoever (no invariant assumed) -/
+theorem C06_returns (l : Level) (q : Nat) (t : Id) (g : Nat) :
+    ∃ l' r g', l.matchOrder q t g = (l', r, g') := ⟨_, _, _, rfl⟩
+
+/-! ### (2), (3) exhaustion and the lower bound, from any well-formed state -/
+
+theorem C06_exhausts_and_at_least {l : Level} (h : l.Inv) (q : Nat) (t : Id) (g : Nat) :
+    ((l.matchOrder q t g).2.1.remaining > 0 → sumVis (l.matchOrder q t g).1.map = 0) ∧
+      min q (sumVis l.map) ≤ sumQty (l.matchOrder q t g).2.1.txs ∧
+      sumQty (l.matchOrder q t g).2.1.txs + (l.matchOrder q t g).2.1.remaining = q := by
+  have h0 : AggInv l.map l.tickets { vis := l.vis, hid := l.hid, cnt := l.cnt, stats := l.stats, g := g } :=
+    ⟨h.nodup, by simp, by simp, h.covered, by simpa [sumVis] using h.vis, by simpa [sumHid] using h.hid,
+      by simpa using h.cnt, by simpa [sumVis, sumHid] using h.fits, by simpa using h.cfits⟩
+  have he0 : ExhInv q (sumVis l.map) q l.map
+      { vis := l.vis, hid := l.hid, cnt := l.cnt, stats := l.stats, g := g } :=
+    ⟨by simp [sumQty], by simp, by simp [sumQty]⟩
+  have hl := matchLoop_exh l.price t q (sumVis l.map) q l.map l.tickets _ ⟨h0, he0⟩
+  have hstop := matchLoop_stop l.price t q l.map l.tickets
+    { vis := l.vis, hid := l.hid, cnt := l.cnt, stats := l.stats, g := g }
+  simp only [Level.matchOrder]
+  generalize matchLoop l.price t q l.map l.tickets _ = res at hl hstop
+  obtain ⟨rem, m, ts, a⟩ := res
+  simp only at hl hstop
+  obtain ⟨ha, he⟩ := hl
+  have hr := requeueAside_spec a.aside m ts ha.nodupM ha.nodupA ha.disj ha.covered
+  have hz := sumVis_zero_of_all he.aside0
+  simp only [Level.finishMatch]
+  refine ⟨?_, ?_, he.acct⟩
+  · intro hpos
+    rcases hstop with h0 | hts
+    · omega
+    · subst hts
+      have : m = [] := ids_eq_nil ha.covered
+      subst this
+      rw [hr.2.2.1, hz]; rfl
+  · have := he.mono; have := he.acct
+    rcases hstop with h0 | hts
+    · omega
+    · subst hts
+      have : m = [] := ids_eq_nil ha.covered
+      subst this
+      simp [sumVis] at this; omega
+
+/-- the same, as the observation predicate the driver evaluates on the real crate -/
+theorem C06_ok {l : Level} (h : l.Inv) (q : Nat) (t : Id) (g : Nat) :
+    C06.ok q (l.matchOrder q t g).2.1 l.listing (l.matchOrder q t g).1.listing = true := by
+  obtain ⟨h1, h2, _⟩ := C06_exhausts_and_at_least h q t g
+  have hs := sums_sortByTs l.map
+  have hs' := sums_sortByTs (l.matchOrder q t g).1.map
+  simp only [C06.ok, Level.listing, hs.1, hs'.1, Bool.and_eq_true, Bool.or_eq_true, beq_iff_eq,
+    decide_eq_true_eq]
+  refine ⟨?_, h2⟩
+  by_cases hr : (l.matchOrder q t g).2.1.remaining = 0
+  · exact Or.inl hr
+  · exact Or.inr (h1 (by omega))
+
+/-- **C06 over histories**: in every state reachable by an admissible history (zero quantities
+    allowed), every match request returns, exhausts and executes at least the minimum. -/
+theorem C06_history (p : Nat) (ops : List Op) (ha : AdmAll ⟨Level.new p, 0⟩ ops) (q : Nat) (t : Id) :
+    let s := Sys.run ⟨Level.new p, 0⟩ ops
+    C06.ok q (s.lvl.matchOrder q t s.g).2.1 s.lvl.listing (s.lvl.matchOrder q t s.g).1.listing = true :=
+  C06_ok (Sys.run_inv ops (Level.inv_new p) ha) q t _
+
+/-! non-vacuity: the state on which the unrepaired crate never returned is well-formed -/
+example : (Level.addOrder (Level.new 100) ⟨⟨false, 1⟩, 100, 0, .sell, 1, .gtc, .iceberg 5⟩).Inv :=
+  (Level.inv_new 100).addOrder_inv (by unfold Adm; decide)
+
 end PLV.C06
